@@ -169,6 +169,9 @@ type pendingBlock struct {
 	prio     string
 	promised uint32
 	frags    []byte
+	fields   []byte // canonical field list the sender means, when the op states it (rhdr, rpp, hb)
+	known    bool
+	updates  int // leading dynamic table size updates of the block
 }
 
 // Exec implements core.Exec for both properties; prop selects which oracle clauses are reported.
@@ -202,6 +205,42 @@ type Exec struct {
 	sentFlow, credited         [2]map[uint32]int64
 	sentFlowConn, creditedConn [2]int64
 	hazard                     [2]bool // F08b class reached on relay of direction d
+
+	// ---- SETTINGS_HEADER_TABLE_SIZE signalling (RFC 7540 6.5.3, RFC 7541 4.2) ----
+	// Endpoint e applies the SETTINGS it received when it acknowledges them (op settingsack): until
+	// then its HPACK encoder keeps working under the limits it knew. ackDue[e]: one entry per SETTINGS
+	// frame endpoint e has received and not yet acknowledged = the HEADER_TABLE_SIZE values in it.
+	ackDue [2][][]uint32
+	// advFrames[e]: the same for the SETTINGS frames endpoint e sent whose acknowledgement it has
+	// not yet received; advAcked[e]: the value in force by acknowledgement. Endpoint e's decoder
+	// accepts a dynamic table size update up to the largest of these.
+	advFrames [2][][]uint32
+	advAcked  [2]uint32
+	// real-HPACK cases: endpoint e's own encoder (blocks are encoded when the op executes, so a
+	// shrunk op list is still a valid session), its policy limit, and the CONTINUATION fragments
+	// it still has to send (op rcont)
+	enc      [2]*hpack.Encoder
+	encBuf   [2]*bytes.Buffer
+	realPend [2][][]byte
+	// sender-side instruction blocks (op hb): the dynamic table of endpoint e's hand-driven encoder
+	// and the limit it knows (last acknowledged HEADER_TABLE_SIZE of the peer)
+	sTab   [2]*ShadowTab
+	sLimit [2]uint32
+	// an x/net hpack.Decoder rejects the second of two leading dynamic table size updates when its
+	// table is not empty after the first (trusted base, see section file): remembered per
+	// direction so that this decoder quirk is not blamed on the relay
+	// F08b, second form: relay d wrote a dynamic table size update in front of a block that then
+	// stayed in an output queue; if the receiver lowers its table size (and sees the acknowledgement,
+	// which is forwarded at once) before the block leaves, the update in it is above what the
+	// receiver allows by then. updPending[d]: endpoint 1-d advertised a table size since relay d last
+	// encoded a block.
+	updPending [2]bool
+	stale      [2]bool
+	twoUpdatesIn [2]bool // endpoint d's latest block began with two size updates
+	skipRest     bool    // the rest of the case is not sent to the model (case abandoned)
+	quirkNow     bool    // ... in this step, because of the decoder quirk: the step's verdicts are void
+	validIn      bool    // the header block completed in this step is inside the validated input domain
+	hp           *hpState
 }
 
 func NewExec(prop string) *Exec {
@@ -218,6 +257,12 @@ func NewExec(prop string) *Exec {
 		x.rInit[e], x.rMax[e], x.rConn[e] = 65535, 16384, 65535
 		x.rWU[e], x.rRecv[e] = map[uint32]int64{}, map[uint32]int64{}
 		x.sentFlow[e], x.credited[e] = map[uint32]int64{}, map[uint32]int64{}
+		x.advAcked[e] = 4096
+		x.mirror[e].SetAllowedMaxDynamicTableSize(1<<32 - 1)
+		x.encBuf[e] = &bytes.Buffer{}
+		x.enc[e] = hpack.NewEncoder(x.encBuf[e])
+		x.sTab[e] = NewShadowTab(4096)
+		x.sLimit[e] = 4096
 	}
 	cf := http2.NewFramer(x.toEP[0], x.fromEP[0])
 	sf := http2.NewFramer(x.toEP[1], x.fromEP[1])
@@ -230,7 +275,10 @@ func (x *Exec) Close() {}
 type failure struct{ sig, msg string }
 
 func (x *Exec) result(line string, fails []failure, modelOp string) core.Result {
-	r := core.Result{Impl: line, ModelOp: modelOp, SkipModel: x.realHpack}
+	r := core.Result{Impl: line, ModelOp: modelOp, SkipModel: x.realHpack || x.skipRest}
+	if x.quirkNow {
+		return r
+	}
 	for _, f := range fails {
 		mine := strings.HasPrefix(f.sig, strings.ToLower(x.prop)+":") || f.sig == "panic" || f.sig == "hang"
 		if mine {
@@ -275,8 +323,11 @@ func (x *Exec) Do(op string) core.Result {
 		}
 		return e2ePreface(t[1])
 	}
+	if strings.HasPrefix(t[0], "hp.") {
+		return x.hpOp(t)
+	}
 	if x.dead {
-		return core.Result{Impl: "dead", SkipModel: x.realHpack}
+		return core.Result{Impl: "dead", SkipModel: x.realHpack || x.skipRest}
 	}
 	if len(t) < 2 {
 		return core.Result{Impl: "bad-op"}
@@ -291,6 +342,7 @@ func (x *Exec) Do(op string) core.Result {
 	}
 	d := e // direction of frames sent by endpoint e
 	w := x.wr[e]
+	x.validIn, x.quirkNow = false, false
 	needEnc := false    // append enc=<n> for the model
 	needOrd := false    // append ord=<sids> for the model
 	wantCtl := ""       // control frame endpoint 1-e must receive identically in this step
@@ -386,6 +438,113 @@ func (x *Exec) Do(op string) core.Result {
 			x.completeBlock(e)
 			needEnc = true
 		}
+	case "rhdr", "rpp": // rhdr e sid es prio cuts fields | rpp e sid promised fields   (real hpack.Encoder at the endpoint)
+		var sid, prom uint32
+		var ok1, ok2, ok3, present bool
+		var prio http2.PriorityParam
+		var fs []Field
+		cuts := "-"
+		if t[0] == "rhdr" {
+			if len(t) != 7 {
+				return core.Result{Impl: "bad-op"}
+			}
+			sid, ok1 = atoiU32(t[2])
+			prio, present, ok2 = parsePrio(t[4])
+			fs, ok3 = ParseFieldsTok(t[6])
+			cuts = t[5]
+		} else {
+			if len(t) != 5 {
+				return core.Result{Impl: "bad-op"}
+			}
+			sid, ok1 = atoiU32(t[2])
+			prom, ok2 = atoiU32(t[3])
+			fs, ok3 = ParseFieldsTok(t[4])
+		}
+		if !ok1 || !ok2 || !ok3 || x.pend[e].active || !x.realHpack || len(fs) == 0 {
+			return core.Result{Impl: "bad-op"}
+		}
+		x.encBuf[e].Reset()
+		for _, f := range fs {
+			x.enc[e].WriteField(hpack.HeaderField{Name: f.Name, Value: f.Value})
+		}
+		block := append([]byte{}, x.encBuf[e].Bytes()...)
+		frs, okc := cutBlock(block, cuts)
+		if !okc {
+			return core.Result{Impl: "bad-op"}
+		}
+		eh := len(frs) == 1
+		if t[0] == "rhdr" {
+			es := t[3] == "1"
+			if present && prio.IsZero() {
+				present = false
+			}
+			werr = w.WriteHeaders(http2.HeadersFrameParam{StreamID: sid, BlockFragment: frs[0], EndStream: es, EndHeaders: eh, Priority: prio})
+			x.pend[e] = pendingBlock{active: true, sid: sid, es: es, prio: prioTok(prio, present)}
+		} else {
+			werr = w.WritePushPromise(http2.PushPromiseParam{StreamID: sid, PromiseID: prom, BlockFragment: frs[0], EndHeaders: eh})
+			x.pend[e] = pendingBlock{active: true, sid: sid, push: true, promised: prom}
+		}
+		x.pend[e].fields, x.pend[e].known = LitEncode(fs), true
+		x.pend[e].updates = len(LeadingUpdates(block))
+		x.realPend[e] = frs[1:]
+		if x.pend[e].updates > 0 {
+			core.Count("gen:sender-block-with-size-update")
+		}
+		if eh {
+			x.completeBlock(e)
+			needEnc = true
+		}
+	case "rcont": // rcont e : the next CONTINUATION of the block endpoint e is sending
+		if len(t) != 2 || !x.pend[e].active || len(x.realPend[e]) == 0 {
+			return core.Result{Impl: "bad-op"}
+		}
+		frag := x.realPend[e][0]
+		x.realPend[e] = x.realPend[e][1:]
+		eh := len(x.realPend[e]) == 0
+		werr = w.WriteContinuation(x.pend[e].sid, eh, frag)
+		if eh {
+			x.completeBlock(e)
+			needEnc = true
+		}
+	case "enclimit": // enclimit e v : the table size endpoint e's own encoder is willing to use
+		if len(t) != 3 {
+			return core.Result{Impl: "bad-op"}
+		}
+		v, ok1 := atoiU32(t[2])
+		if !ok1 {
+			return core.Result{Impl: "bad-op"}
+		}
+		x.enc[e].SetMaxDynamicTableSizeLimit(v)
+		return core.Result{Impl: "ok", SkipModel: true}
+	case "hb": // hb e sid es prio instrs : one HEADERS frame whose block is the given representations
+		if len(t) != 6 {
+			return core.Result{Impl: "bad-op"}
+		}
+		sid, ok1 := atoiU32(t[2])
+		prio, present, ok2 := parsePrio(t[4])
+		is, ok3 := ParseInstrs(t[5])
+		if !ok1 || !ok2 || !ok3 || x.pend[e].active || x.realHpack || (present && prio.IsZero()) {
+			return core.Result{Impl: "bad-op"}
+		}
+		trial := x.sTab[e].Clone()
+		fs, legal := trial.Apply(is, uint64(x.sLimit[e]))
+		if !legal || len(fs) == 0 {
+			// not a block a conforming encoder emits here (a shrunk case): not an input, and the model,
+			// which does not follow the sender's encoder, is not asked
+			return core.Result{Impl: "bad-op", SkipModel: true}
+		}
+		x.sTab[e] = trial
+		es := t[3] == "1"
+		werr = w.WriteHeaders(http2.HeadersFrameParam{StreamID: sid, BlockFragment: Serialize(is), EndStream: es, EndHeaders: true, Priority: prio})
+		x.pend[e] = pendingBlock{active: true, sid: sid, es: es, prio: prioTok(prio, present), fields: LitEncode(fs), known: true}
+		for _, in := range is {
+			if in.Op == 'u' {
+				x.pend[e].updates++
+			}
+		}
+		core.Count("op:hb-representations:" + hbKinds(is))
+		x.completeBlock(e)
+		needEnc = true
 	case "prio": // prio e sid p
 		if len(t) != 4 {
 			return core.Result{Impl: "bad-op"}
@@ -427,8 +586,16 @@ func (x *Exec) Do(op string) core.Result {
 				ss = append(ss, http2.Setting{ID: http2.SettingID(id), Val: uint32(v)})
 			}
 		}
+		// RFC 7540 6.5.3: the values of one SETTINGS frame are processed in the order they appear, so
+		// of several values for one identifier the last is the one the sender of the frame applies
 		nInit := 0
+		tabVals := []uint32{}
+		seenID := map[http2.SettingID]bool{}
 		for _, s := range ss {
+			if seenID[s.ID] {
+				core.Count("gen:settings-duplicate-id")
+			}
+			seenID[s.ID] = true
 			switch s.ID {
 			case http2.SettingInitialWindowSize:
 				nInit++
@@ -436,9 +603,16 @@ func (x *Exec) Do(op string) core.Result {
 			case http2.SettingMaxFrameSize:
 				x.rMax[1-e] = int64(s.Val)
 			case http2.SettingHeaderTableSize:
-				x.dec[e].SetAllowedMaxDynamicTableSize(s.Val)
+				tabVals = append(tabVals, s.Val)
+				core.Count("gen:settings-header-table-size")
 			}
 		}
+		if len(tabVals) > 0 {
+			x.updPending[1-e] = true // relay 1-e (the one sending to e) announces it with its next block
+		}
+		x.advFrames[e] = append(x.advFrames[e], tabVals)
+		x.ackDue[1-e] = append(x.ackDue[1-e], tabVals) // the relay forwards the frame in this step
+		x.setAllowed(e)
 		needOrd = nInit > 0
 		werr = w.WriteSettings(ss...)
 		wantCtl = "S:" + t[2]
@@ -448,6 +622,15 @@ func (x *Exec) Do(op string) core.Result {
 		}
 		werr = w.WriteSettingsAck()
 		wantCtl = "SA"
+		// endpoint e acknowledges, and thereby applies, the oldest SETTINGS frame it has received
+		if len(x.ackDue[e]) > 0 {
+			for _, v := range x.ackDue[e][0] {
+				x.enc[e].SetMaxDynamicTableSize(v)
+				x.sLimit[e] = v
+				core.Count("gen:table-size-applied-at-ack")
+			}
+			x.ackDue[e] = x.ackDue[e][1:]
+		}
 	case "ping": // ping e ack data8
 		if len(t) != 4 || x.pend[e].active {
 			return core.Result{Impl: "bad-op"}
@@ -503,7 +686,7 @@ func (x *Exec) Do(op string) core.Result {
 		err := x.pair.Step(h2.Direction(d))
 		x.toEP[0].Reset()
 		x.toEP[1].Reset()
-		x.dead = true // afterwards the endpoints' expectations are void
+		x.dead, x.skipRest = true, true // afterwards the endpoints' expectations are void
 		out := "raw-ok"
 		if err != nil {
 			out = "raw-err"
@@ -516,7 +699,7 @@ func (x *Exec) Do(op string) core.Result {
 	if werr != nil {
 		// the harness endpoint itself could not build the frame: not an input of the relay
 		x.fromEP[e].Reset()
-		x.dead = true
+		x.dead, x.skipRest = true, true
 		return core.Result{Impl: "unwritable", SkipModel: true}
 	}
 	core.Count("op:" + t[0])
@@ -531,13 +714,32 @@ func (x *Exec) Do(op string) core.Result {
 			msg = msg[len(msg)-100:]
 		}
 		core.Count("step-error:" + msg)
+		switch {
+		case strings.Contains(msg, xnetSizeUpdateQuirk) && x.twoUpdatesIn[d]:
+			// the relay's x/net hpack.Decoder rejected the second of two leading size updates (legal,
+			// RFC 7541 4.2): a limit of the trusted decoder, not of the relay; the case ends here
+			core.Count("xnet-quirk:second-size-update-rejected-by-relay-decoder")
+			x.skipRest = true
+			return core.Result{Impl: "abandoned", SkipModel: true}
+		case x.validIn || !blockOp(t[0]):
+			fail("c08:relay-stopped", "the relay stopped relaying direction %d on a valid frame (everything endpoint %d sends from now on is lost): %s", d, e, msg)
+		}
 	}
 
 	if needEnc && err == nil {
 		// F08b class: a header block was just encoded on relay d for stream x.lastBlockSid while
 		// a block encoded earlier is still queued on another stream.
+		hadUpd := x.updPending[d]
+		x.updPending[d] = false
 		for _, st := range x.pair.Snapshot(h2.Direction(d)).Streams {
 			if st.ID == x.lastBlockSid {
+				// ... second form: the block just encoded carries a size update and stays queued
+				if n := len(st.Queue); hadUpd && n > 0 && (st.Queue[n-1].Kind == "headers" || st.Queue[n-1].Kind == "push_promise") {
+					if !x.stale[d] {
+						core.Count("hpack-stale-size-update-cases")
+					}
+					x.stale[d] = true
+				}
 				continue
 			}
 			for _, qf := range st.Queue {
@@ -704,6 +906,14 @@ func (x *Exec) Do(op string) core.Result {
 				}
 				rendered[r] = append(rendered[r], s)
 				x.recvCtl(r, e, s, &wantCtl, fail)
+				if f.IsAck() && len(x.advFrames[r]) > 0 {
+					// the oldest SETTINGS frame endpoint r sent is acknowledged: its values are in force
+					if vs := x.advFrames[r][0]; len(vs) > 0 {
+						x.advAcked[r] = vs[len(vs)-1]
+					}
+					x.advFrames[r] = x.advFrames[r][1:]
+					x.setAllowed(r)
+				}
 			case *http2.PingFrame:
 				s := "PING:" + b01(f.IsAck()) + ":" + Digest(f.Data[:])
 				rendered[r] = append(rendered[r], s)
@@ -780,6 +990,9 @@ func (x *Exec) Do(op string) core.Result {
 				sw := x.rInit[dir] + x.rWU[dir][st.ID] - x.rRecv[dir][st.ID]
 				if h <= sw && h <= x.rConn[dir] {
 					fail("c09:stranded", "direction %d stream %d: a queued %s frame of flow size %d fits the receiver's windows (stream %d, connection %d) and was not delivered", dir, st.ID, st.Queue[0].Kind, h, sw, x.rConn[dir])
+					// C08: with nothing in flight and credit granted for it, a frame the relay keeps is lost
+					// (the receiver, whose accounting shows room, has no reason to send anything more)
+					fail("c08:held-back", "direction %d stream %d: %d frame(s) accepted by the relay (first: %s, flow size %d%s) are not delivered although the receiver has granted the credit (stream window %d, connection window %d) and nothing else is in flight", dir, st.ID, len(st.Queue), st.Queue[0].Kind, h, tailDesc(st.Queue), sw, x.rConn[dir])
 				}
 			}
 		}
@@ -917,6 +1130,17 @@ type pendingBlockRx struct {
 
 func (x *Exec) recvBlock(dir, r int, b *pendingBlockRx, fail func(string, string, ...interface{})) string {
 	hfs, derr := x.dec[r].DecodeFull(b.frag)
+	if derr != nil && strings.Contains(derr.Error(), xnetSizeUpdateQuirk) && len(LeadingUpdates(b.frag)) >= 2 {
+		// the endpoint's x/net hpack.Decoder rejects the second of two leading size updates the
+		// relay's encoder legally emitted (RFC 7541 4.2: the smallest size, then the final one): a
+		// limit of the trusted decoder; the endpoint's HPACK state is void from here on
+		core.Count("xnet-quirk:second-size-update-rejected-by-endpoint-decoder")
+		x.dead, x.skipRest, x.quirkNow = true, true, true
+		if h := x.head(dir, b.sid); h != nil {
+			x.pop(dir, b.sid)
+		}
+		return "!xnet-quirk"
+	}
 	var got []byte
 	fieldsTok := "!undecodable"
 	if derr == nil {
@@ -927,12 +1151,21 @@ func (x *Exec) recvBlock(dir, r int, b *pendingBlockRx, fail func(string, string
 		got = LitEncode(fs)
 		fieldsTok = Digest(got)
 	}
-	if x.hazard[dir] {
+	if x.hazard[dir] || x.stale[dir] {
 		fieldsTok = "~" // F08b class reached: what the receiver decodes is no longer predicted by the model
 	}
 	var lens []string
 	for _, n := range b.lens {
 		lens = append(lens, strconv.Itoa(n))
+	}
+	if us := LeadingUpdates(b.frag); len(us) > 0 {
+		// the dynamic table size updates the relay's encoder wrote in front of this block
+		var p []string
+		for _, u := range us {
+			p = append(p, strconv.FormatUint(u, 10))
+		}
+		lens[len(lens)-1] += "^u" + strings.Join(p, ".")
+		core.Count("rx:block-with-size-update")
 	}
 	var line string
 	want := byte('H')
@@ -957,6 +1190,10 @@ func (x *Exec) recvBlock(dir, r int, b *pendingBlockRx, fail func(string, string
 		if x.hazard[dir] {
 			sig = "c08:hpack-block-out-of-encode-order"
 			why = " (a block HPACK-encoded earlier was still queued on another stream when a later one was encoded)"
+		}
+		if x.stale[dir] && derr != nil && strings.Contains(derr.Error(), "dynamic table size update too large") {
+			sig = "c08:hpack-size-update-stale"
+			why = " (the relay wrote this size update when it encoded the block; the block then waited in an output queue while the receiver lowered its table size)"
 		}
 		if derr != nil {
 			fail(sig, "direction %d stream %d: the receiver cannot decode the header block: %v%s", dir, b.sid, derr, why)
@@ -1007,7 +1244,13 @@ func (x *Exec) completeBlock(e int) {
 	// what the sender encoded, as a canonical field list (decoded with a decoder that mirrors
 	// the sender's own encoder state; for literal blocks this is the block itself)
 	fields := p.frags
-	if x.realHpack {
+	x.twoUpdatesIn[e] = p.updates >= 2
+	x.validIn = p.known
+	if p.known {
+		fields = p.fields
+	} else if !x.realHpack {
+		x.validIn = IsLiteralBlock(p.frags)
+	} else if x.realHpack {
 		hfs, err := x.mirror[e].DecodeFull(p.frags)
 		if err != nil {
 			panic("harness: sender block does not decode: " + err.Error())
@@ -1048,4 +1291,94 @@ func (x *Exec) drained() core.Result {
 		}
 	}
 	return r
+}
+
+// xnetSizeUpdateQuirk: error text of x/net hpack.Decoder.parseDynamicTableSizeUpdate when a size
+// update is not the first representation of a block and the table is not empty - which it also
+// says of the second of two leading updates.
+const xnetSizeUpdateQuirk = "dynamic table size update MUST occur at the beginning"
+
+func blockOp(k string) bool {
+	switch k {
+	case "headers", "cont", "pp", "rhdr", "rpp", "rcont", "hb":
+		return true
+	}
+	return false
+}
+
+// setAllowed: endpoint e's decoder accepts dynamic table size updates up to the largest
+// SETTINGS_HEADER_TABLE_SIZE it has advertised that is in force or not yet acknowledged.
+func (x *Exec) setAllowed(e int) {
+	m := x.advAcked[e]
+	for _, fr := range x.advFrames[e] {
+		for _, v := range fr {
+			if v > m {
+				m = v
+			}
+		}
+	}
+	x.dec[e].SetAllowedMaxDynamicTableSize(m)
+}
+
+func tailDesc(q []h2.VerifQueued) string {
+	var trailers, es bool
+	for i, f := range q {
+		if i > 0 && f.Kind == "headers" {
+			trailers = true
+		}
+		if f.EndStream {
+			es = true
+		}
+	}
+	s := ""
+	if trailers {
+		s += "; a header block waits behind it"
+	}
+	if es {
+		s += "; END_STREAM waits behind it"
+	}
+	return s
+}
+
+func hbKinds(is []Instr) string {
+	seen := map[byte]bool{}
+	for _, in := range is {
+		seen[in.Op] = true
+	}
+	s := ""
+	for _, c := range []byte("uiarl") {
+		if seen[c] {
+			s += string(c)
+		}
+	}
+	return s
+}
+
+// cutBlock cuts an encoded block at the given per-mille positions ("-" = not at all); the first
+// fragment is never empty (this x/net Framer rejects a HEADERS frame with an empty fragment).
+func cutBlock(b []byte, spec string) ([][]byte, bool) {
+	if spec == "-" {
+		return [][]byte{b}, true
+	}
+	var out [][]byte
+	last := 0
+	for _, p := range strings.Split(spec, ",") {
+		pm, err := strconv.Atoi(p)
+		if err != nil || pm < 0 || pm > 1000 {
+			return nil, false
+		}
+		at := len(b) * pm / 1000
+		if at < 1 {
+			at = 1
+		}
+		if at > len(b) {
+			at = len(b)
+		}
+		if at < last {
+			at = last
+		}
+		out = append(out, b[last:at])
+		last = at
+	}
+	return append(out, b[last:]), true
 }
